@@ -379,6 +379,10 @@ class JointProbabilityDistribution(DiscreteFactor):
             raise TypeError("model must be an instance of BayesianNetwork")
         factors = [cpd.to_factor() for cpd in model.get_cpds()]
         factor_prod = reduce(mul, factors)
+        # A JointProbabilityDistribution has no state names: compare by state position.
+        factor_prod = DiscreteFactor(
+            factor_prod.variables, factor_prod.cardinality, factor_prod.values
+        )
         JPD_fact = DiscreteFactor(self.variables, self.cardinality, self.values)
         if JPD_fact == factor_prod:
             return True
